@@ -408,7 +408,7 @@ func genC10(c *hlib.Ctx) {
 	// ---- posting groups
 	genPgGroups(c, c.N(3000, 150000))
 	// ---- stores
-	nStores, nReq := c.N(14, 220), c.N(14, 30)
+	nStores, nReq := c.N(14, 170), c.N(14, 30)
 	for i := 0; i < nStores; i++ {
 		g := &storeGen{r: r, storedPool: []int{1, 2, 4, 5, 7, 9, 11}, extPool: []int{5, 6, 9, 11}}
 		blocks := g.genBlocks(r.Range(1, 3), pickInt(r, 4, 12, 40), 1)
